@@ -630,6 +630,50 @@ class ORCALOG(Fmt):
         return c["name"], text, exp, {}
 
 
+class QCHEMLOG(Fmt):
+    name = "qchemlog"
+    fmt = "qchemlog"
+    space = [("natom", [3, 1, 12]), ("coords", ["small", "negative"]), ("unrestricted", ["0", "1", "false", "absent"]), ("norb", [7, 3, 20]), ("mulliken", [True, False]), ("moments", [True, False]),
+             ("jobtype", ["sp", "opt", "absent"]), ("method", ["hf", "b3lyp"])]
+
+    def make(self, c, seed):
+        n = c["natom"]
+        z = elements("OHH", n, seed)
+        r = coords(c["coords"], n, 10, ANG, seed)
+        rem = {}
+        if c["jobtype"] != "absent":
+            rem["jobtype"] = c["jobtype"]
+        rem["method"] = c["method"]
+        if c["unrestricted"] != "absent":
+            rem["unrestricted"] = c["unrestricted"]
+        rem["basis"] = "cc-pvtz"
+        unres = c["unrestricted"] == "1"
+        norb = c["norb"]
+        nel = int(sum(z))
+        na = min((nel + 1) // 2 + (1 if unres else 0), norb)
+        nb = min(nel // 2 - (1 if unres else 0), na)
+        en = lambda k, shift: round(-20.5 + 1.375 * k + shift, 4)  # noqa: E731
+        occ_a, vir_a = [en(k, 0.0) for k in range(na)], [en(k, 0.0) for k in range(na, norb)]
+        occ_b, vir_b = ([en(k, 0.0625) for k in range(nb)], [en(k, 0.0625) for k in range(nb, norb)]) if unres else (None, None)
+        mull = [round(-0.4 + 0.3 * i - 0.01 * (i % 3), 6) for i in range(n)] if c["mulliken"] else None
+        dip = np.array([1.4989, 1.1097, -0.7840]) if c["moments"] else None
+        quad = np.array([-6.1922, 0.2058, -5.0469, -0.9308, 1.1096, -5.7620]) if c["moments"] else None  # XX XY YY XZ YZ ZZ
+        text = writers.qchem_log(z, r, rem, na, nb, 3 * norb, -76.0571936393, occ_a, vir_a, occ_b, vir_b, mull, dip, quad)
+        exp = [("atnums", z, None), ("atcoords", r, 1e-9), ("energy", -76.0571936393, 1e-12), ("lot", c["method"], None), ("obasis_name", "cc-pvtz", None),
+               ("mo.kind", "unrestricted" if unres else "restricted", None), ("mo.energies", occ_a + vir_a + ((occ_b + vir_b) if unres else []), 1e-12),
+               ("mo.occs", ([1.0] * na + [0.0] * (norb - na) + [1.0] * nb + [0.0] * (norb - nb)) if unres else [2.0] * nb + [1.0] * (na - nb) + [0.0] * (norb - na), 0),
+               ("extra.nuclear_repulsion_energy", 9.19775748, 1e-12)]
+        if c["jobtype"] != "absent":
+            exp.append(("run_type", c["jobtype"], None))
+        if mull is not None:
+            exp.append(("atcharges.mulliken", mull, 1e-12))
+        if dip is not None:
+            # the unit of the moments is C04's subject (known finding): directions and the order of the components are judged here
+            exp.append(("@relative:moments.(1, 'c')", dip, 1e-9))
+            exp.append(("@relative:moments.(2, 'c')", quad[[0, 1, 3, 2, 4, 5]], 1e-9))  # xx xy xz yy yz zz
+        return "calc.qchemlog", text, exp, {}
+
+
 class QCSCHEMA(Fmt):
     """QCSchema JSON written with the json module from the documented field tables (molecule / input / output)."""
 
@@ -724,7 +768,7 @@ class GAMESS(Fmt):
         return "m.dat", text, exp, {}
 
 
-FORMATS = [FCHKW(), WFNW(), WFXW(), MWFNW(), GAMESS(), QCSCHEMA(), ORCALOG(), XYZ(), EXTXYZ(), PDB(), MOL2(), SDF(), GRO(), CRD(), VASP(), CHGCAR(), LOCPOT(), CUBE(), GJF(), FCIDUMP(), GLOG()]
+FORMATS = [FCHKW(), WFNW(), WFXW(), MWFNW(), GAMESS(), QCSCHEMA(), ORCALOG(), QCHEMLOG(), XYZ(), EXTXYZ(), PDB(), MOL2(), SDF(), GRO(), CRD(), VASP(), CHGCAR(), LOCPOT(), CUBE(), GJF(), FCIDUMP(), GLOG()]
 
 
 def lookup(obj, path):
@@ -765,7 +809,14 @@ def compare(obj, exp):
                 i, p = (0, 0) if got.shape != want.shape else np.unravel_index(np.abs(got - want).argmax(), want.shape)
                 problems.append(("orbital-values", f"orbital {i} at probe point {p}: the file denotes {want[i, p] if got.shape == want.shape else want.shape!r}, the loaded object {got[i, p] if got.shape == want.shape else got.shape!r}"))
             continue
-        if path == "@mass-ratios":
+        if path.startswith("@relative:"):
+            path = path.split(":", 1)[1]
+            got = lookup(obj, path)
+            if got is not None and np.linalg.norm(np.asarray(got, dtype=float)) > 0:
+                got = np.asarray(got, dtype=float) / np.linalg.norm(np.asarray(got, dtype=float))
+                want = np.asarray(want, dtype=float) / np.linalg.norm(np.asarray(want, dtype=float))
+            path = path + "(direction)"
+        elif path == "@mass-ratios":
             got = None if obj.atmasses is None or len(obj.atmasses) == 0 else np.asarray(obj.atmasses, dtype=float) / float(obj.atmasses[0])
             path = "atmasses(relative)"
         else:
